@@ -81,9 +81,12 @@ Step(t, o) ==
     CASE o.op = "set"    -> IF SetOk(t, o.p) THEN [t |-> SetT(t, o.p, o.val), res |-> Ok(0, {})] ELSE [t |-> t, res |-> Panic]
       [] o.op = "del"    -> IF LookupOk(t, o.p) THEN [t |-> DelT(t, o.p), res |-> Ok(0, {})] ELSE [t |-> t, res |-> Panic]
       [] o.op \in {"get", "getm"} -> [t |-> t, res |-> GetRes(t, o.p)]
-      \* graph.Instance.NodeInstanceSchema: "if PathExists(p) { Get(p) }" and only an object counts as node
-      \* metadata; never panics (same answer whether PathExists means "the parents exist" or "the entry exists")
-      [] o.op = "schema" -> [t |-> t, res |-> IF LookupOk(t, o.p) /\ IsMapAt(t, o.p) THEN Ok(MAP, Sub(t, o.p)) ELSE Ok(NIL, {})]
+      \* the schema endpoint's view of one node: NodeInstanceSchema does "if PathExists(p) { Get(p) }", only an
+      \* object counts as node metadata, and the reply field is `omitempty`: an EMPTY object and no metadata are
+      \* the same reply.  Never panics.  (Same answer whether PathExists means "the parents exist" or "the entry
+      \* exists": Get answers nil for an absent last element.)
+      [] o.op = "schema" -> [t |-> t, res |-> IF LookupOk(t, o.p) /\ IsMapAt(t, o.p) /\ Sub(t, o.p) # {}
+                                               THEN Ok(MAP, Sub(t, o.p)) ELSE Ok(NIL, {})]
       [] o.op = "exists" -> [t |-> t, res |-> ExistsRes(t, o.p)]
       [] o.op \in {"data", "save"} -> [t |-> t, res |-> Ok(MAP, t)]
       [] o.op = "over"   -> [t |-> IF o.val.v = MAP THEN o.val.sub ELSE {}, res |-> Ok(0, {})]
